@@ -29,7 +29,7 @@ WORKERS = 4  # fork + copy-on-write of the pristine children does not scale to 1
 
 def shards(tier, seed, scale):
     n = 4 if tier == "quick" else 16
-    return [{"histories": int((4 if tier == "quick" else 16) * scale) or 1, "pool": 60 if tier == "quick" else 140, "maxlen": 3} for _ in range(n)]
+    return [{"histories": int((4 if tier == "quick" else 16) * scale) or 1, "pool": 130 if tier == "quick" else 200, "maxlen": 3} for _ in range(n)]
 
 
 _ADDR = re.compile(r"0x[0-9a-fA-F]+")
@@ -57,7 +57,7 @@ def build_pool(rng, nprng, n, maxlen):
         pool.append({"label": label, "fname": fname, "desc": desc, "tensors": tensors, "kwargs": kwargs, "adapter": adapter})
 
     fams = G.FAMILIES + ["update"]
-    while len(pool) < max(8, n - 57):
+    while len(pool) < max(8, n - 123):
         c = G.generate(rng, nprng, family=rng.choice(fams), P={"maxlen": maxlen})
         kw = c.call_kwargs()
         if rng.random() < 0.3:
@@ -118,6 +118,13 @@ def build_pool(rng, nprng, n, maxlen):
 
     for f in (fs_plain, fs_named, fs_varkw, fs_kwonly, fs_plain):
         add("factory-signature", "add", "a b, b", [x, f], {})
+    # one description string used by operations of different families (whatever each outcome is in a pristine process, it must not depend on
+    # which other operation saw the same string before): reductions/dot rewrite brackets into the parsed expression, shape-preserving ops check them
+    x14 = np.arange(4.0).reshape(1, 4)
+    x12 = np.arange(12.0)
+    for dsc, tens in (("a b -> b", [x14]), ("a ... -> a", [x12]), ("a b -> a b", [x]), ("a b", [x]), ("a [b]", [x]), ("b... -> b...", [x])):
+        for opn, kw_ in (("sum", {}), ("mean", {}), ("roll", {"shift": 1}), ("flip", {}), ("max", {}), ("sort", {}), ("softmax", {}), ("id", {}), ("logsumexp", {})):
+            add("same-description", opn, dsc, tens, dict(kw_))
     add("semantic", "sort", "[a] [b]", [x], {})
     add("semantic", "dot", "a b, b c", [x, x.T], {})
     add("unknown-backend", "sum", "a [b]", [x], {"backend": "no.such"})
@@ -267,7 +274,7 @@ def finalize(agg, tier, seed):
     for k in ("with_block_left_by_exception", "history_event_adapt_unrelated"):
         if c.get(k, 0) < 2:
             agg.inconclusive.append(f"history event {k} observed only {c.get(k, 0)} times")
-    groups = {"conf-": 15, "factory": 4, "adapter-axisname": 4}
+    groups = {"conf-": 15, "factory": 4, "adapter-axisname": 4, "same-description": 10}
     for prefix, minimum in groups.items():
         n = sum(v for k, v in c.items() if k.startswith("label:" + prefix))
         if n < minimum:
